@@ -625,6 +625,67 @@ def gen_tf(ctx, n):
   return out
 
 
+def gen_sharded_sizes(ctx, n_random):
+  """Sharded runs in which the padded statistics size [N, S, S] is decided by WHICH parameters are
+  preconditioned: a parameter excluded by skip_preconditioning_rank_lt / _dim_size_gt whose
+  (merged, blocked) dimension is larger than / equal to / smaller than every statistic of the
+  preconditioned ones, first or last in the tree, all skipped, none skipped -- x block size (sizes
+  saturating at the block size or not) x compression x device count.  init, declared shapes and
+  partition specs must describe ONE tree in all of them (and the model's sh_max must pick the size
+  from the preconditioned parameters only)."""
+  rng = ctx.rng.fork()
+  fams = [
+      ({"skip_preconditioning_rank_lt": 2},
+       [[(3, 4), (14,)], [(3, 4), (5,)], [(3, 4), (12,)], [(14,), (3, 4)], [(14,), (5,)],
+        [(3, 4), (2, 5)], [(2, 2), (9,)], [(3, 4), (14,), (20,)], [(14,), (2, 3, 2), ()]]),
+      ({"skip_preconditioning_dim_size_gt": 12},
+       [[(2, 3), (6,), (40, 2)], [(2, 3), (6,), (13,)], [(40, 2), (2, 3)], [(40,), (13, 2)],
+        [(2, 3), (6,)], [(12, 2), (13, 3)]]),
+  ]
+  out = []
+  k = 0
+  for skip, trees in fams:
+    for shapes in trees:
+      for block in (16, 4):
+        for cr in (0, 2):
+          k += 1
+          cfg = dict(skip, block_size=block, mode="sharded", num_devices_for_pjit=1 + k % 2)
+          if cr:
+            cfg["compression_rank"] = cr
+          if k % 5 == 0:
+            cfg["best_effort_shape_interpretation"] = False
+          if k % 7 == 0:
+            cfg["best_effort_memory_usage_reduction"] = True
+          out.append((cfg, shapes))
+  for _ in range(n_random):
+    nw = rng.choice([1, 2])
+    ws = [tuple(rng.choice([2, 3, 4, 5]) for _ in range(rng.choice([2, 2, 3]))) for _ in range(nw)]
+    if rng.below(2):
+      skip = {"skip_preconditioning_rank_lt": 2}
+      sk = [(rng.choice([3, 7, 11, 14, 20, 33]),) for _ in range(rng.choice([1, 2]))]
+    else:
+      g = rng.choice([5, 12])
+      skip = {"skip_preconditioning_dim_size_gt": g}
+      sk = [tuple(rng.shuffle([g + rng.choice([1, 4, 20]), rng.choice([1, 2, 3])])[:rng.choice([1, 2])])
+            for _ in range(rng.choice([1, 2]))]
+      sk = [t if any(d > g for d in t) else (g + 3,) for t in sk]
+    shapes = rng.shuffle(ws + sk)
+    cfg = dict(skip, block_size=rng.choice([2, 4, 8, 16, 64]), mode=rng.choice(["sharded", "sharded", "plain"]),
+               num_devices_for_pjit=rng.choice([1, 2]))
+    if rng.below(3) == 0:
+      cfg["compression_rank"] = rng.choice([1, 2, -1])
+    if rng.below(3) == 0:
+      cfg["merge_small_dims_block_size"] = rng.choice([1, 4, 6])
+    if rng.below(4) == 0:
+      cfg["precondtioner_type"] = rng.choice([2, 3])
+    out.append((cfg, shapes))
+  cases = []
+  for cfg, shapes in out:
+    tr = {"k": "dict", "keys": list("abcd"[:len(shapes)]), "ch": [L(*sh) for sh in shapes]}
+    cases.append(dict(opt="ds", cfg=cfg, x64=False, tree=tr, why="sharded-max-size"))
+  return cases
+
+
 def gen_cases(ctx):
   quick = ctx.tier == "quick"
   cases = []
@@ -645,6 +706,7 @@ def gen_cases(ctx):
       cfg = dict(cfg, param_dtype="bfloat16")
     cases.append(dict(opt=opt, cfg=cfg, x64=False, tree=with_dtype(tr, cfg.get("param_dtype", "float32")),
                       why=opt))
+  cases += gen_sharded_sizes(ctx, 20 if quick else 400)
   for i, c in enumerate(cases):
     c["id"] = i
     c["T"] = 3
@@ -805,6 +867,8 @@ def histogram(ctx, cases, res):
     if c["opt"] == "ds":
       for k, v in sorted(c.get("row", {}).items()):
         ctx.count("ds.%s=%s" % (k, v))
+      if c.get("why") == "sharded-max-size":
+        ctx.count("family=sharded-max-size")
     leaves = tree_leaves(c["tree"])
     ctx.count("tree.nleaves=%d" % len(leaves))
     ctx.count("tree.kind=%s" % c["tree"]["k"])
@@ -836,7 +900,10 @@ def run(ctx):
       "replicated/pmap/sharded(1,2 devices) and jax_enable_x64), 3/4 of the rows repaired to satisfy "
       "the FD constraints (and, for half of the compressed rows, block_size 8 with one dimension >= 6 so that compression really applies), x random parameter trees (dict/list/tuple/nested/empty/bare array, rank "
       "0-4, unit dims); SM3; Tearfree (grafting x Shampoo/Sketchy x momentum options incl. invalid "
-      "values, and the second-order transforms alone on raw shapes).  Every case: init + 3 updates. "
+      "values, and the second-order transforms alone on raw shapes); a structured sharded family in "
+      "which a parameter excluded from preconditioning is larger / equal / smaller than every "
+      "statistic of the preconditioned ones (first/last, all skipped, none skipped) x block size x "
+      "compression x devices, plus random members.  Every case: init + 3 updates. "
       "A case is distinct by (optimizer, configuration, tree) and non-trivial when the optimizer "
       "was constructed and init ran (rejections by option validation are trivial).")
   ctx.assumptions += [
